@@ -27,10 +27,12 @@ func rulesC09(c *Ctx) {
 	R := c.R
 	R.Rule("R1", "keyset derivation reaches no randomness/time/environment leaf", 3)
 	R.Rule("R2", "start-up and rotation wiring of GenerateKeyset arguments, persisted row and ordering", 11)
-	R.Rule("R3", "active pointer assigned only in start-up/rotation; keyset map never deleted from", 2)
+	R.Rule("R3", "active pointer assigned only in start-up/rotation; keyset map never deleted from; every keyset is stored whole under its own id", 5)
 	R.Rule("R4", "signer per-message guards and key wiring (active keyset only)", 6)
 	R.Rule("R5", "inputs: all-keysets lookup and own-keyset fee", 2)
 	R.Rule("R6", "60 keys, amounts 2^i, hardened index i, id from the complete map", 4)
+	R.Rule("R7", "the key endpoints serve what the mint holds: each store into the keyset cache uses the key of the same request's look-up and holds that route's own keyset", 4)
+	c.c09KeysetCache("R7")
 	c.vocabProblems("R2")
 
 	// ---- R1
@@ -115,6 +117,62 @@ func rulesC09(c *Ctx) {
 		}
 		R.Check("R3", "module", "writers of the active-keyset pointer", "mint/mint.go", okW, "the active keyset pointer is assigned only by start-up and rotation", "writers: "+strings.Join(writers, ", "))
 		R.Check("R3", "module", "keyset map never deleted from", "mint/mint.go", len(deletes) == 0, "no keyset is ever removed from the map of all keysets (old ecash stays valid)", strings.Join(deletes, ", "))
+		// what is put into the map is a whole keyset under its own id: every field of the stored value is the
+		// field of one generated keyset (only the Active flag may be set apart), never a partial copy
+		var kst *types.Struct
+		var mapT types.Type
+		if fv, _, _ := types.LookupFieldOrMethod(c.V.CoreType, true, c.V.CoreType.Obj().Pkg(), ks); fv != nil {
+			if m, ok := fv.Type().Underlying().(*types.Map); ok {
+				kst, _ = m.Elem().Underlying().(*types.Struct)
+				mapT = fv.Type()
+			}
+		}
+		nUpd := 0
+		for _, f := range c.P.Funcs {
+			top := EnclosingTop(f)
+			if top.Pkg == nil || top.Pkg.Pkg != c.V.CoreType.Obj().Pkg() || kst == nil {
+				continue
+			}
+			for _, b := range f.Blocks {
+				for _, in := range b.Instrs {
+					mu, ok := in.(*ssa.MapUpdate)
+					if !ok {
+						continue
+					}
+					for _, o := range c.CtxsOf(mu) {
+						// (the mint package has one map of this type: the field)
+						if !types.Identical(mu.Map.Type(), mapT) {
+							continue
+						}
+						nUpd++
+						v, k := o.Of(mu.Value), o.Of(mu.Key)
+						id := project(v, "Id")
+						okAll, why := true, ""
+						if k.String() != id.String() {
+							okAll, why = false, "stored under "+short(k.String(), 80)+" but its Id is "+short(id.String(), 80)
+						}
+						if id.K != "field" || len(id.Args) != 1 {
+							okAll, why = false, "the Id of the stored value is not the Id of a keyset: "+short(id.String(), 80)
+						} else {
+							src := id.Args[0]
+							for i := 0; i < kst.NumFields(); i++ {
+								fn := kst.Field(i).Name()
+								if fn == "Active" {
+									continue
+								}
+								if got := project(v, fn); got.String() != project(src, fn).String() {
+									okAll, why = false, "field "+fn+" of the stored keyset is "+short(got.String(), 80)+", not that of the keyset whose Id it carries"
+								}
+							}
+						}
+						R.Check("R3", c.P.FuncKey(top), "keyset stored whole under its own id", c.P.InstrPos(mu), okAll, "a keyset put into the map of all keysets carries every field (keys, fee, derivation index, unit) of one generated keyset and is stored under that keyset's id", why)
+					}
+				}
+			}
+		}
+		if nUpd < 3 {
+			R.Unresolved("R3", "updates of the keyset map", fmt.Sprintf("%d found, 3 on the reference tree", nUpd))
+		}
 	}
 
 	// ---- R4, R5 (shared)
@@ -494,4 +552,105 @@ func (c *Ctx) opCalls(op *ssa.Function) []ssa.CallInstruction {
 		out = append(out, Calls(g)...)
 	}
 	return out
+}
+
+// c09KeysetCache: R7. The key endpoints answer from a small cache. What /v1/keys serves as "the active
+// keyset" must be what the mint calls active, and /v1/keys/{id} the keyset of that id: every store into the
+// cache made while serving one of the two routes uses the key that the same request looked up, and the
+// bytes stored are the marshalled answer of that route's own source (GetActiveKeyset / GetKeysetById of the
+// requested id). Read per route, through helpers that are new on this tree (their parameters resolved from
+// the route's call).
+func (c *Ctx) c09KeysetCache(rule string) {
+	R := c.R
+	routes := map[string]string{"/v1/keys": "GetActiveKeyset", "/v1/keys/{id}": "GetKeysetById"}
+	n := 0
+	for _, rt := range c.V.Routes {
+		src, ok := routes[rt.Path]
+		if !ok || rt.Handler == nil {
+			continue
+		}
+		h := rt.Handler
+		hk := c.P.FuncKey(h)
+		saved := c.scope
+		c.OpContexts(h)
+		var getKeys []string
+		type setAt struct {
+			ci  ssa.CallInstruction
+			key *Ex
+			val *Ex
+		}
+		var sets []setAt
+		for _, ci := range c.opCalls(h) {
+			d := c.P.Describe(ci)
+			switch d.Name {
+			case "mint.(*Cache).Get":
+				for _, o := range c.CtxsOf(ci) {
+					getKeys = append(getKeys, o.Of(d.Args[0]).String())
+				}
+			case "mint.(*Cache).Set":
+				for _, o := range c.CtxsOf(ci) {
+					val := o.Of(d.Args[1])
+					// Marshal(&local): what is marshalled is the content of the local at the call
+					if isCall(val, "encoding/json.Marshal") && val.Call != nil && len(val.Call.Common().Args) == 1 {
+						arg := val.Call.Common().Args[0]
+						if mi, ok := arg.(*ssa.MakeInterface); ok {
+							arg = mi.X
+						}
+						if _, isPtr := arg.Type().Underlying().(*types.Pointer); isPtr {
+							val = mk("call", "encoding/json.Marshal", o.ContentAt(arg, val.Call))
+						}
+					}
+					sets = append(sets, setAt{ci, o.Of(d.Args[0]), val})
+				}
+			}
+		}
+		c.scope = saved
+		for _, s := range sets {
+			n++
+			same := false
+			for _, k := range getKeys {
+				if k == s.key.String() {
+					same = true
+				}
+			}
+			R.Check(rule, hk, rt.Path+": the answer is cached under the key it is looked up with", c.P.InstrPos(s.ci), same, "a store into the keyset cache uses the key of the look-up of the same request (another route's entry is never overwritten)",
+				fmt.Sprintf("store key %s, look-up keys %v", short(s.key.String(), 80), getKeys))
+			// the route's source of keysets: the mint's own accessor, for the by-id route called with the cache key
+			okV, whyV := false, "no call of "+src
+			for _, g := range c.OpFuncs(h) {
+				for _, ci := range Calls(g) {
+					d := c.P.Describe(ci)
+					if d.Static == nil || d.Static.Name() != src {
+						if d.Static != nil && (d.Static.Name() == "GetActiveKeyset" || d.Static.Name() == "GetKeysetById") {
+							okV, whyV = false, "the route also reads "+d.Static.Name()
+							goto done
+						}
+						continue
+					}
+					if len(d.Args) == 0 {
+						okV = true
+						continue
+					}
+					for _, o := range c.CtxsOf(ci) {
+						a := o.Of(d.Args[0]).String()
+						// (a variable captured by the closure that fetches the keyset reads as "one of" its values)
+						if strings.HasPrefix(a, "anyof:(") && strings.HasSuffix(a, ")") {
+							a = strings.TrimSuffix(strings.TrimPrefix(a, "anyof:("), ")")
+						}
+						okV = a == s.key.String()
+						if !okV {
+							whyV = "keyset fetched for " + short(a, 80) + ", cached under " + short(s.key.String(), 80)
+							goto done
+						}
+					}
+				}
+			}
+		done:
+			R.Check(rule, hk, rt.Path+": the cached bytes come from "+src, c.P.InstrPos(s.ci), okV && isCall(s.val, "encoding/json.Marshal"), "what is cached for the route is the marshalled keyset the mint itself names for it (by id: the id that is the cache key)",
+				whyV+"; stored "+short(s.val.String(), 120))
+		}
+	}
+	if n < 2 {
+		R.Unresolved(rule, "keyset cache stores", fmt.Sprintf("%d stores found in the key routes, 2 on the reference tree", n))
+	}
 }
